@@ -1,5 +1,6 @@
 import TwistedModel.Mail.Utf7
 import TwistedModel.Mail.Xtext
+import TwistedProps.C41.Gen
 /-!
 C41 — mail text codecs round-trip.
 
@@ -15,6 +16,8 @@ UTF-16BE + base64 by that decoder's shift machine.
 *SMTP xtext* (`smtp.xtext_encode` / `smtp.xtext_decode`; model `TwistedModel/Mail/Xtext.lean`).
 For every byte string the encoding is RFC 3461 `xtext` (`xtext_output_rfc3461`), printable
 (`xtext_output_printable`), and decodes back to the same values (`xtext_decode_encode`).
+`gen_*`: `xtext_encode` is regenerated from smtp.py on every run (`Generated.Xtext`, harness/py2lean.py: the loop over
+`iterbytes(s)` as a fold) and proved equal to the model's `encode` (`TwistedProps/C41/Gen.lean`).
 
 Both codecs violated the statement before the repair recorded in known-findings
 (`fixed: property=C41 …`); the unrepaired encoders are kept in the model files as
@@ -298,6 +301,25 @@ theorem absorb_units (us : List Nat) (sur : Nat) (out : Text) (h : ∀ u ∈ us,
     rw [bitsToNat_natToBits, Nat.mod_eq_of_lt (h u (by simp)), ih _ _ (fun x hx => h x (by simp [hx]))]
     simp [unitsFold]
 
+
+/-! ### the translator-regenerated `xtext_encode` (see `TwistedProps/C41/Gen.lean`) -/
+
+/-- `xtext_encode` as regenerated from smtp.py = (the model's `encode`, `len(s)`), on every byte string -/
+theorem gen_xtextEncode (s : List UInt8) : Generated.Xtext.xtextEncode s = (Xtext.encode s, s.length) :=
+  gen_xtextEncode_eq s
+
+/-- **xtext round trip over the regenerated encoder**: what the translated `xtext_encode` produces, the model's
+    `xtext_decode` reads back as the same byte values -/
+theorem gen_xtext_decode_encode (b : List UInt8) :
+    Xtext.decode (Generated.Xtext.xtextEncode b).1 = .ok (b.map UInt8.toNat) := by
+  rw [gen_xtextEncode]; exact xtext_decode_encode b
+
+/-- the regenerated encoder's output is RFC 3461 `xtext` -/
+theorem gen_xtext_output_rfc3461 (b : List UInt8) : xtextForm (Generated.Xtext.xtextEncode b).1 = true := by
+  rw [gen_xtextEncode]; exact xtext_output_rfc3461 b
+
+example : Generated.Xtext.xtextEncode [97, 43, 61, 32, 255] = ([97, 43, 50, 66, 43, 51, 68, 43, 50, 48, 43, 70, 70], 5) := by
+  decide
 
 /-! ## UTF-16 -/
 
